@@ -1,8 +1,264 @@
-import CuqiVerif.Model.C11
+import CuqiVerif.Proofs.C11
+import CuqiVerif.Generated.C11WriteSets
 
+/-!
+# C11 — conditioning, evaluating and sampling never alter the objects they start from
+
+The theorems are about the executable heap model of `Model/C11.lean` (the definitions the driver
+runs).  `s.run op` is one library operation (condition / logd / gradient / sample /
+to_likelihood / model(dist)) applied to arbitrary addresses of an arbitrary heap `s`;
+`s.runAll ops` an arbitrary interleaving of any length; `fp n fuel s a` the observable part of
+the object graph reachable from `a` (all non-benign fields, recursively) among the objects that
+existed at watermark `n`.
+-/
 namespace CuqiVerif.C11
 
-/-- placeholder while the harness is brought up (replaced below) -/
-theorem makeCopy_addr (s : St) (a : Nat) : (s.makeCopy a).2 = s.size := rfl
+/-! ## 1. every operation writes only to objects it allocated itself, or to benign caches -/
+
+/-- **op_frame.**  One operation, started in any state `s`, on any receiver and arguments:
+    the heap only grows; no class tag and no non-benign field of any object that existed before
+    the operation changes; every write it logs targets an object allocated during the operation
+    or a benign cache field. -/
+theorem op_frame (s : St) (op : Op) :
+    s.size ≤ (s.run op).1.size ∧
+    (∀ a, a < s.size → (s.run op).1.cls a = s.cls a ∧ ∀ f, f.benign = false → (s.run op).1.get a f = s.get a f) ∧
+    (∀ w, w ∈ (s.run op).1.log → w ∈ s.log ∨ s.size ≤ w.1 ∨ w.2.benign = true) := by
+  have h := run_step (n := s.size) (Nat.le_refl _) op
+  exact ⟨h.size, fun a ha => ⟨h.cls a ha, fun f hf => h.get a f ha hf⟩, h.log⟩
+
+example : (St.mk #[Obj.ofList .dist [(.name, .num 0), (.slot 0, .fn 1 [3] [])]] []).size = 1 := rfl
+
+/-- **op_frame with an earlier watermark** — what is needed for sequences: objects older than `n`
+    are protected from an operation started later (`n ≤ s.size`). -/
+theorem op_frame_watermark (n : Nat) (s : St) (hn : n ≤ s.size) (op : Op) :
+    (∀ a f, a < n → f.benign = false → (s.run op).1.get a f = s.get a f) ∧
+    (∀ w, w ∈ (s.run op).1.log → w ∈ s.log ∨ n ≤ w.1 ∨ w.2.benign = true) :=
+  ⟨(run_step hn op).get, (run_step hn op).log⟩
+
+/-- **sequence_frame.**  Any interleaving of operations of any length, on the originals and on any
+    objects derived from them (the addresses in `ops` are arbitrary): no non-benign field of an
+    object that existed at the start changes, and the whole write log added by the sequence
+    consists of writes to later objects or benign caches. -/
+theorem sequence_frame (s : St) (ops : List Op) :
+    (∀ a f, a < s.size → f.benign = false → (s.runAll ops).get a f = s.get a f) ∧
+    (∀ a, a < s.size → (s.runAll ops).cls a = s.cls a) ∧
+    (∀ w, w ∈ (s.runAll ops).log → w ∈ s.log ∨ s.size ≤ w.1 ∨ w.2.benign = true) := by
+  have h := runAll_step (n := s.size) ops s (Nat.le_refl _)
+  exact ⟨h.get, h.cls, h.log⟩
+
+/-- **fingerprint_preserved.**  The observable object graph of every original is unchanged by any
+    sequence of operations (unbounded length).  This is the property for the model. -/
+theorem fingerprint_preserved (s : St) (ops : List Op) (fuel a : Nat) :
+    fp s.size fuel (s.runAll ops) a = fp s.size fuel s a :=
+  (runAll_step ops s (Nat.le_refl _)).fp_eq fuel a
+
+lemma runAll_append (s : St) (ops1 ops2 : List Op) : s.runAll (ops1 ++ ops2) = (s.runAll ops1).runAll ops2 := by
+  induction ops1 generalizing s with
+  | nil => rfl
+  | cons op ops ih => simp only [List.cons_append, St.runAll]; exact ih _
+
+/-- **siblings_independent.**  Whatever was derived by a first batch of operations (everything
+    existing after `ops1`, in particular every conditioned copy) is not influenced by any later
+    operations on its siblings or on the original. -/
+theorem siblings_independent (s : St) (ops1 ops2 : List Op) (fuel b : Nat) :
+    fp (s.runAll ops1).size fuel (s.runAll (ops1 ++ ops2)) b = fp (s.runAll ops1).size fuel (s.runAll ops1) b := by
+  rw [runAll_append]
+  exact fingerprint_preserved (s.runAll ops1) ops2 fuel b
+
+/-- **gibbs_stream_frame.**  The re-conditioning stream of Gibbs sampling (`sweeps` sweeps over the
+    parameters `pars` of target `t`, with arbitrary current values), of any length — thousands of
+    re-conditionings included — leaves every pre-existing object's fingerprint unchanged. -/
+theorem gibbs_stream_frame (s : St) (t : Nat) (pars : List Nat) (vals : Nat → Nat → Int) (sweeps fuel a : Nat) :
+    fp s.size fuel (s.runAll (gibbsOps t pars vals sweeps)) a = fp s.size fuel s a :=
+  fingerprint_preserved s _ fuel a
+
+example : (gibbsOps 4 [0, 1, 2] (fun k q => (k : Int) + q) 1000).length = 3000 := by
+  have h : ∀ k, (gibbsOps 4 [0, 1, 2] (fun k q => (k : Int) + q) k).length = 3 * k := by
+    intro k; induction k with
+    | zero => rfl
+    | succ k ih => simp only [gibbsOps, List.length_append, ih, List.length_map, List.length_cons, List.length_nil]; omega
+  rw [h]
+
+/-- **constants_on_fresh.**  `_add_constants_to_density` (`density._constant += …`) inside a
+    conditioning of a joint never lands on an object that existed before the call: every
+    `_constant` write logged by `condJoint` targets an address allocated by that call. -/
+theorem constants_on_fresh (s : St) (a : Nat) (kw : Kw) (w : Nat × Fld)
+    (hw : w ∈ (s.condJoint a kw).1.log) (hnew : w ∉ s.log) (hf : w.2 = .const) : s.size ≤ w.1 := by
+  rcases (condJoint_good (n := s.size) (Nat.le_refl _) a kw).1.log w hw with h | h | h
+  · exact absurd h hnew
+  · exact h
+  · rw [hf] at h; exact absurd h (by decide)
+
+/-- the object returned by conditioning a joint is never one that existed before -/
+theorem condJoint_result_fresh (s : St) (a : Nat) (kw : Kw) (r : Nat) (h : (s.condJoint a kw).2 = .obj r) :
+    s.size ≤ r :=
+  (condJoint_good (n := s.size) (Nat.le_refl _) a kw).2 r h
+
+/-! ## 2. a conditioned copy keeps the name of its original -/
+
+/-- names are read through non-benign fields of older objects only: any sequence of operations
+    leaves the name of every pre-existing density unchanged -/
+theorem name_preserved (s : St) (ops : List Op) (a : Nat) (ha : a < s.size) :
+    (s.runAll ops).nameOf a = s.nameOf a :=
+  nameOf_congr s.size s _ (runAll_step ops s (Nat.le_refl _)).get a ha
+
+/-- **copy_keeps_name** (`_make_copy`): the copy reports the name of its original, whatever is
+    later written to the copy's other fields. -/
+theorem copy_keeps_name (s : St) (a : Nat) (ha : a < s.size) :
+    (s.makeCopy a).1.nameOf (s.makeCopy a).2 = s.nameOf a := by
+  have hstep := makeCopy_step (n := s.size) (Nat.le_refl _) a
+  have hb : (s.makeCopy a).2 = s.size := rfl
+  have horig : (s.makeCopy a).1.get (s.makeCopy a).2 .orig = .ref a := by
+    unfold St.makeCopy
+    exact write_get_same _ _ _ _ (by rw [alloc_addr, alloc_size]; omega)
+  rw [St.nameOf, horig]
+  simp only [hb, ha, dite_true]
+  exact nameOf_congr s.size s _ hstep.get a ha
+
+example : let s : St := ⟨#[Obj.ofList .dist [(.name, .num 7)]], []⟩
+    (s.makeCopy 0).1.nameOf 1 = s.nameOf 0 := copy_keeps_name _ 0 (by decide)
+
+/-! ## 3. benign caches are invisible -/
+
+/-- **benign_idempotent** (Lognormal): after the re-synchronisation performed by every access of
+    `_normal`, the shared Gaussian holds the owner's own `mean`/`cov`, whatever it held before —
+    what a Lognormal evaluates with is a function of its own non-benign fields only. -/
+theorem lognormal_reads_own_fields (s : St) (a g : Nat) (hc : s.cls a = .lognormal) (hg : s.get a .cacheG = .ref g)
+    (hlt : g < s.size) : s.lognormalParams a = (s.get a (.slot 0), s.get a (.slot 1)) := by
+  unfold St.lognormalParams
+  have hg' : (s.resync a).get a .cacheG = .ref g := by
+    unfold St.resync
+    rw [hc, hg]
+    dsimp only
+    split <;> split <;> simp only [write_get_other, hg, ne_eq, reduceCtorEq, not_false_eq_true, or_true]
+  dsimp only
+  rw [hg']
+  dsimp only
+  unfold St.resync
+  rw [hc, hg]
+  dsimp only
+  by_cases h1 : s.get g .cmean = s.get a (.slot 0)
+  · rw [if_pos h1]
+    by_cases h2 : s.get g .ccov = s.get a (.slot 1)
+    · rw [if_pos h2, h1, h2]
+    · rw [if_neg h2, write_get_same _ _ _ _ hlt, write_get_other _ _ _ _ _ _ (Or.inr (by decide)), h1]
+  · rw [if_neg h1]
+    have hs : (s.write g .cmean (s.get a (.slot 0))).size = s.size := write_size _ _ _ _
+    have e0 : (s.write g .cmean (s.get a (.slot 0))).get a (.slot 1) = s.get a (.slot 1) :=
+      write_get_other _ _ _ _ _ _ (Or.inr (by decide))
+    have e1 : (s.write g .cmean (s.get a (.slot 0))).get g .ccov = s.get g .ccov :=
+      write_get_other _ _ _ _ _ _ (Or.inr (by decide))
+    rw [e0, e1]
+    by_cases h2 : s.get g .ccov = s.get a (.slot 1)
+    · rw [if_pos h2, write_get_same _ _ _ _ hlt, e1, h2]
+    · rw [if_neg h2, write_get_same _ _ _ _ (by rw [hs]; exact hlt),
+          write_get_other _ _ _ _ _ _ (Or.inr (by decide)), write_get_same _ _ _ _ hlt]
+
+example : let s : St := ⟨#[Obj.ofList .cache [(.cmean, .num 9), (.ccov, .num 9)],
+                           Obj.ofList .lognormal [(.slot 0, .num 1), (.slot 1, .num 2), (.cacheG, .ref 0)]], []⟩
+    s.lognormalParams 1 = (.num 1, .num 2) := by decide
+
+lemma mem_log_ite_write {s : St} {c : Prop} [Decidable c] {a : Nat} {f : Fld} {v : Val} {w : Nat × Fld}
+    (hw : w ∈ (if c then s else s.write a f v).log) : w ∈ s.log ∨ w = (a, f) := by
+  split at hw
+  · exact Or.inl hw
+  · rw [write_log] at hw
+    rcases List.mem_cons.1 hw with h | h
+    · exact Or.inr h
+    · exact Or.inl h
+
+/-- the re-synchronisation of a Lognormal's shared Gaussian writes benign fields only (whatever
+    the address of that Gaussian) -/
+theorem resync_benign (s : St) (a : Nat) (w : Nat × Fld) (hw : w ∈ (s.resync a).log) : w ∈ s.log ∨ w.2.benign = true := by
+  unfold St.resync at hw
+  split at hw
+  · dsimp only at hw
+    rcases mem_log_ite_write hw with h | h
+    · rcases mem_log_ite_write h with h | h
+      · exact Or.inl h
+      · subst h; exact Or.inr rfl
+    · subst h; exact Or.inr rfl
+  · exact Or.inl hw
+
+/-! ## 4. the fingerprint is not vacuous: an in-place write *is* seen -/
+
+/-- A conditioning that wrote the new value into the receiver instead of a copy (what the frame
+    theorems exclude) changes the fingerprint of the original. -/
+theorem inplace_write_breaks_fingerprint :
+    let s : St := ⟨#[Obj.ofList .dist [(.name, .num 0), (.slot 0, .fn 1 [3] [])]], []⟩
+    fp 1 2 (s.write 0 (.slot 0) (.num 5)) 0 ≠ fp 1 2 s 0 := by
+  intro s h
+  have h5 := congrArg (fun t => (t.kids[5]?).bind Tree.leafVal) h
+  revert h5
+  decide
+
+/-! ## 5. the write table extracted from the current source (re-decided on every run) -/
+
+/-- fields of `self` that are benign caches, per method -/
+def benignSelf : List (String × String × String) :=
+  [("Distribution", "geometry", "geometry"),            -- lazily inferred default geometry (dimension of the mutable variables)
+   ("Distribution", "get_mutable_variables", "_mutable_vars")]
+
+/-- fields of objects held by `self` that are benign caches, per method -/
+def benignHeld : List (String × String × String × String) :=
+  [("Distribution", "geometry", "self._geometry", "_variable_name"),
+   ("Lognormal", "_normal", "self._Gaussian", "mean"),
+   ("Lognormal", "_normal", "self._Gaussian", "cov"),
+   ("RegularizedGaussian", "gaussian", "self._gaussian", "_name")]
+
+def allowed (w : Gen.W) : Bool :=
+  w.recv == .fresh
+  || (w.cls == "Gibbs" || w.cls == "HybridGibbs")      -- the sampler's own state, not the densities
+  || (w.recv == .self && benignSelf.contains (w.cls, w.meth, w.field))
+  || (w.recv == .selfField && benignHeld.contains (w.cls, w.meth, w.recvText, w.field))
+  || (w.recv == .param && w.cls == "JointDistribution" && w.meth == "_add_constants_to_density"
+        && w.field == "_constant" && w.kind == "aug")
+
+/-- **writes_ok.**  Every attribute write in the conditioning / evaluation / sampling methods of
+    the *current* source goes to an object created in the same method (`copy`, `_make_copy`, a
+    constructor), to a benign cache, or is the `_constant +=` of `_add_constants_to_density`
+    (whose call sites are constrained by `constants_call_sites_ok`). -/
+theorem writes_ok : Gen.writes.all allowed = true := by decide
+
+/-- `_add_constants_to_density` is only applied to a freshly constructed `Posterior` or to the
+    joint's own (just re-conditioned) distribution, `_reduce_to_single_density` only to the fresh
+    copy of the joint, and every entry of the copy's density list is replaced by the result of
+    calling (conditioning) the old entry; the Gibbs samplers store `target()`, not `target`. -/
+theorem constants_call_sites_ok :
+    Gen.calls = [⟨"JointDistribution", "_condition", "_reduce_to_single_density", "fresh"⟩,
+                 ⟨"JointDistribution", "_reduce_to_single_density", "_add_constants_to_density", "constructor"⟩,
+                 ⟨"JointDistribution", "_reduce_to_single_density", "_add_constants_to_density", "ownDistribution"⟩,
+                 ⟨"Gibbs", "__init__", "store-target", "callOfArgument"⟩,
+                 ⟨"HybridGibbs", "__init__", "store-target", "callOfArgument"⟩]
+    ∧ Gen.writes.contains ⟨"JointDistribution", "_condition", .fresh, "new_joint", "_densities", "elem:call"⟩ = true := by
+  decide
+
+/-- the write sites the heap model transcribes (class, method, receiver kind, field) -/
+def modelWrites : List (String × String × Gen.Recv × String) :=
+  [("Density", "_make_copy", .fresh, "_original_density"),                 -- makeCopy
+   ("Distribution", "geometry", .self, "geometry"),                          -- (lazy default geometry; oracle only)
+   ("Distribution", "geometry", .selfField, "_variable_name"),               -- benign `vname`
+   ("Distribution", "_condition", .fresh, "<dynamic>"),                      -- condSlot, `unset`
+   ("Distribution", "_condition", .fresh, "<dynamic>"),                      -- condSlot, all arguments found
+   ("Distribution", "_condition", .fresh, "<dynamic>"),                      -- condSlot, partial
+   ("Distribution", "get_mutable_variables", .self, "_mutable_vars"),        -- benign `mvars`
+   ("JointDistribution", "_condition", .fresh, "_densities"),                -- condJoint
+   ("JointDistribution", "_condition", .fresh, "_densities"),                -- condList
+   ("JointDistribution", "_add_constants_to_density", .param, "_constant"),  -- reduce
+   ("Lognormal", "_normal", .selfField, "mean"),                             -- resync
+   ("Lognormal", "_normal", .selfField, "cov"),                              -- resync
+   ("RegularizedGaussian", "gaussian", .selfField, "_name"),                 -- syncInner
+   ("RegularizedGaussian", "_condition", .fresh, "_gaussian"),               -- condReg
+   ("Likelihood", "_condition", .fresh, "distribution"),                     -- condLik
+   ("Model", "forward", .fresh, "_non_default_args")]                        -- applyModel
+
+/-- **table_matches_model.**  The write sites of the current source (outside the Gibbs samplers'
+    own state) are exactly the ones the heap model transcribes, in source order; no method of the
+    list is missing from the source. -/
+theorem table_matches_model :
+    ((Gen.writes.filter (fun w => !(w.cls == "Gibbs" || w.cls == "HybridGibbs"))).map
+        (fun w => (w.cls, w.meth, w.recv, w.field))) = modelWrites
+    ∧ Gen.methodsMissing = [] := by
+  decide
 
 end CuqiVerif.C11
